@@ -100,7 +100,7 @@ fn real_collector(i: usize, ds: &[D]) -> Box<dyn Collector> {
     }
 }
 
-#[derive(Clone, Debug, PartialEq, Eq, Hash)]
+#[derive(Clone, Debug, PartialEq, Eq, Hash, serde::Serialize, serde::Deserialize)]
 enum Op {
     Register(usize),
     Unregister(usize),
